@@ -46,6 +46,9 @@ def floors(tier):
         f["classes"]["C04:" + c] = 30
     for fmt in TC.FORMATS:
         f["classes"]["C04:format:" + fmt] = 300
+    f["evals"]["write.file"] = 300
+    f["classes"]["C04:save:override"] = 100
+    f["classes"]["C04:save:zero-override"] = 20
     return f
 
 
@@ -228,11 +231,41 @@ def _save_pre(ctx):
         before = open(fn, "rb").read()
     except OSError:
         before = None
-    return (fn, before)
+    # what the caller asked save for (the io layer may be handed something else): the file is judged against THIS
+    req = None
+    try:
+        s = snap.tg_snap(tg)
+        data = {"min": s["min"], "max": s["max"], "tiers": [dict(t, entries=[tuple(e) for e in t["entries"]]) for t in s["tiers"]]}
+        args = (ctx.arg(1, "format"), ctx.arg(2, "includeBlankSpaces"), ctx.arg(3, "minTimestamp", None), ctx.arg(4, "maxTimestamp", None),
+                ctx.arg(5, "minimumIntervalLength", 1e-8))
+        if s["keys"] == [t["name"] for t in s["tiers"]] and not domain_ok(data, *args):
+            req = (data,) + args
+    except Exception:
+        req = None
+    return (fn, before, req)
 
 
 def _save_post(ctx):
-    fn, before = ctx.pre
+    fn, before, req = ctx.pre
+    if ctx.exc is None and req is not None and not must_raise(req[0], req[2], req[3], req[4]):
+        data, fmt, blanks, minT, maxT, thr = req
+        case = {"call": "save", "tg": snap_like(data), "format": fmt, "blanks": blanks, "minT": minT, "maxT": maxT, "thr": thr}
+        sig = ("save",) + tuple(_sig(data, fmt, blanks, minT, maxT, thr))
+        try:
+            text = open(fn, "rb").read().decode("utf-8")
+        except Exception as e:
+            REC.violation(PROP, "write.file", "save", case, "the saved file cannot be read back: %s" % e, sig, {"format": fmt, "via": "save"})
+            return
+        ok, msg, classes = judge_written(data, fmt, blanks, minT, maxT, thr, text)
+        if ok is None:
+            REC.skip("write.file", msg)
+        elif ok:
+            zero = [w for w, v in (("min", minT), ("max", maxT)) if v is not None and v == 0]
+            REC.held("write.file", sig, list(classes) + (["C04:save:zero-override"] if zero else []) + (["C04:save:override"] if minT is not None or maxT is not None else []), case)
+        else:
+            REC.violation(PROP, "write.file", "save", case, "file written by save(minTimestamp=%r, maxTimestamp=%r): %s (format %s)" % (minT, maxT, msg, fmt), sig,
+                          {"format": fmt, "blanks": blanks, "thr": thr, "via": "save"})
+        return
     if ctx.exc is None or before is None:
         return
     try:
@@ -289,7 +322,7 @@ def drive(tg, data, fmt, blanks, minT, maxT, thr, work, k):
     from praatio.data_classes.textgrid import _tgToDictionary
     from praatio.utilities import textgrid_io
 
-    if k % 5 == 0 or must_raise(data, blanks, minT, maxT):
+    if k % 5 == 0 or must_raise(data, blanks, minT, maxT) or (k % 2 == 0 and (minT == 0 or maxT == 0)):
         fn = os.path.join(str(work), "c04_%d" % (k % 3))
         with open(fn, "w") as fd:
             fd.write("pre-existing %d\n" % k)
@@ -397,6 +430,8 @@ def replay(v, work):
             tg = snap.build_tg(c["tg"])
         if c["call"] == "write":
             call(textgrid_io.getTextgridAsStr, _tgToDictionary(tg), c["format"], c["blanks"], c["minT"], c["maxT"], c["thr"])
+        elif c["call"] == "save":
+            call(tg.save, os.path.join(str(work), "replay_dest"), c["format"], c["blanks"], c["minT"], c["maxT"], c["thr"], "silence")
         else:
             fn = os.path.join(str(work), "replay_dest")
             with open(fn, "w") as fd:
